@@ -1,4 +1,5 @@
 import Aiorpcx.C10.Queue
+import Aiorpcx.C10.Completed
 import Aiorpcx.C09.Props
 /-!
 # C10 — join follows its wait policy and reports the first finisher
@@ -56,6 +57,33 @@ theorem next_done_none (g : G) (k : Nat) (p : List Nat)
       | nil => rfl
       | cons t rest => simp [hd] at h
 
+theorem pinv_init (p : Policy) : PInv (init p) :=
+  ⟨by simp [init], by intro t ht; simp [init] at ht⟩
+
+/-- **`completed` is the first finisher that counts.**  In every reachable state, `completed`
+is the first task - in the order the join loop took them off the done queue, i.e. in completion
+order among the non-daemon members no other `next_done` caller had taken - whose outcome counts
+(under `object`: not a plain None return); it is `none` exactly while no such task has been
+popped.  Everything the join loop popped has finished, and is part of the completion log. -/
+theorem completed_is_first (p : Policy) (as : List Action) :
+    let g := (runAll (init p) as).1
+    g.completed = g.joinPopped.find? (fun t => countsAsCompleted g.wait (g.outcomeOf t)) ∧
+    (∀ t ∈ g.joinPopped, g.statusOf t = some .done) := by
+  have h := pinv_runAll (init p) as (linv_init p) (pinv_init p)
+  exact ⟨h.completedFirst, h.poppedDone⟩
+
+/-- hence `completed`, once set, is a finished non-daemon member whose outcome counts -/
+theorem completed_counts (p : Policy) (as : List Action) (c : Nat)
+    (h : (runAll (init p) as).1.completed = some c) :
+    c ∈ (runAll (init p) as).1.joinPopped ∧
+    countsAsCompleted (runAll (init p) as).1.wait ((runAll (init p) as).1.outcomeOf c) = true ∧
+    (runAll (init p) as).1.statusOf c = some .done := by
+  obtain ⟨h1, h2⟩ := completed_is_first p as
+  rw [h] at h1
+  have hm := List.mem_of_find?_eq_some h1.symm
+  have hp := List.find?_some h1.symm
+  exact ⟨hm, hp, h2 c hm⟩
+
 /-! ## One iteration of the `join()` loop (decision logic, any state) -/
 
 /-- the outcome of the task at the head of the queue -/
@@ -73,7 +101,7 @@ theorem pop_completed (g : G) (j : Joiner) (t : Nat) (rest : List Nat) (h : g.do
        | none => if countsAsCompleted g.wait (headOutcome g) then some t else none) := by
   unfold G.joinerPop headOutcome
   simp only [h, setJ]
-  cases hc : g.completed <;> simp
+  cases hc : g.completed <;> simp [G.popT, G.outcomeOf, hc]
 
 theorem counts_spec (p : Policy) (o : Outcome) :
     countsAsCompleted p o = true ↔ ¬ (p = .object ∧ o = .none) := by
@@ -88,11 +116,11 @@ theorem pop_stops_iff (g : G) (j : Joiner) (t : Nat) (rest : List Nat) (h : g.do
                (g.wait = .object ∧ (g.joinerPop j).1.completed.isSome)
             then .fin else .next) := by
   unfold G.joinerPop headOutcome
-  simp only [h, setJ, Option.map_some]
+  simp only [h, setJ, Option.map_some, G.stopAfter, G.outcomeOf]
   congr 1
   simp only [Bool.or_eq_true, Bool.and_eq_true, beq_iff_eq]
   congr 1
-  simp [or_assoc]
+  simp [or_assoc, G.popT, G.outcomeOf]
 
 /-- under `all` a successful finisher never stops the wait -/
 example (g : G) (j : Joiner) (t : Nat) (rest : List Nat) (h : g.doneq = t :: rest)
